@@ -361,3 +361,108 @@ def c_read_exact_poll(eng, st, fr, f, args, site):
             r = Enum(inner.ty, tuple(z for z in inner.variants if z[0] == ri), inner.name)
             outs.append((ns, Enum(base.ty, ((vi, (r,)),), base.name)))
     return outs
+
+
+READ_MESSAGE = {"read": ("read::read_message", False), "stream": ("stream::read_message::{closure#0}", True)}
+
+
+def check_read_message(ctx, mod, rule="MSG"):
+    """read_message: the slice the reader delivers and the reader's storage flag are what dlt_message is given; an empty
+    slice is end of stream (Ok(None)); otherwise the outcome of dlt_message is passed on unchanged — Ok((_, m)) as
+    Ok(Some(m)), every Err as Err (no parse failure is turned into end of stream or into a message); a failure of the
+    reader is an Err."""
+    from engine.contracts import ret_ty
+    F, R = ctx.facts, ctx.report
+    path, is_co = READ_MESSAGE[mod]
+    b = F.body(path)
+    if b is None:
+        R.notes.append("%s: %s not found (not decided)" % (rule, path))
+        return
+    fl, ln = b["span"]["f"], b["span"]["l"]
+    eng = Engine(F)
+    eng.key_all = True
+    seen = {"dm_args": []}
+
+    def on_call(eng_, st, fr, f, args, site):
+        p = f.get("resolved") or f["path"]
+        q = f["path"]
+        if is_co and re.search(r"Future(>)?::poll$", q) and args:
+            from engine.contracts import deref as _deref
+            from engine.contracts_std import force as _force
+            from engine.values import Fn
+            fut = args[0]
+            if isinstance(fut, Ref):
+                fut = _deref(eng_, st, fut)
+            fut = _force(eng_, st, fut)
+            if isinstance(fut, Fn) and any(it[0] == "closure" and "next_message_slice" in str(it[1]) for it in fut.items):
+                rt = ret_ty(eng_, site)
+                poll = eng_.M.force(st, Top(rt, "poll#%d" % eng_._hv()))
+                if isinstance(poll, Enum):
+                    names = {eng_.T.variant_name(poll.ty, vi): (vi, fs) for vi, fs in poll.variants}
+                    if "Ready" in names:
+                        vi, fs = names["Ready"]
+                        pt = fs[0].ty if fs and hasattr(fs[0], "ty") else None
+                        return [(st, Enum(poll.ty, ((vi, (Top(pt, "slice_res"),)),), "poll"))]
+            return None
+        if not is_co and (q.endswith("::next_message_slice") or p.endswith("::next_message_slice")):
+            return [(st, Top(ret_ty(eng_, site), "slice_res"))]
+        if q == "parse::dlt_message" or p == "parse::dlt_message":
+            seen["dm_args"].append([repr(a)[:200] for a in args])
+            st.key = st.key + (("rx", "dm"),)
+            return [(st, Top(ret_ty(eng_, site), "dm"))]
+        if q.endswith("::with_storage_header") and len(args) == 1:
+            return [(st, Bool(("sym", "reader.with_storage_header")))]
+        return None
+
+    eng.on_call = on_call
+    try:
+        if is_co:
+            # pre-transform coroutine body: _1 = the captured arguments (reader, filter), _2 = the task context
+            ups = [l for l in b.get("upvars", [])] if isinstance(b.get("upvars"), list) else []
+            env = Top(b["locals"][1]["ty"], "co")
+            args = [env, Top(b["locals"][2]["ty"], "resume")]
+        else:
+            args = eng.symbolic_args(b, names=["reader", "filter_config_opt"])
+        outs = eng.call_path(path, args)
+    except Exception as ex:
+        R.notes.append("%s: %s could not be analysed (%r) (not decided)" % (rule, path, ex))
+        return
+    n = 0
+    bad = []
+    for st, rv in outs:
+        v = rv
+        if not isinstance(v, Enum) or len(v.variants) != 1:
+            continue
+        res = eng.T.variant_name(v.ty, v.variants[0][0])
+        called = any(k[0] == "rx" and k[1] == "dm" for k in st.key)
+        dmv = [k[2] for k in st.key if k[0] == "variant" and k[1] == "dm"]
+        n += 1
+        if called and dmv:
+            if dmv[-1] == "Err" and res != "Err":
+                bad.append("a failure of dlt_message is returned as %s(..) instead of Err" % res)
+            if dmv[-1] == "Ok":
+                inner = v.variants[0][1][0] if v.variants[0][1] else None
+                on, ofs = (None, None)
+                if isinstance(inner, Enum) and len(inner.variants) == 1:
+                    on = eng.T.variant_name(inner.ty, inner.variants[0][0])
+                    ofs = inner.variants[0][1]
+                if res != "Ok" or on != "Some" or "dm.Ok.0" not in repr(ofs):
+                    bad.append("a message parsed by dlt_message is returned as %s(%s) instead of Ok(Some(message))" % (res, on))
+        elif not called:
+            if res == "Ok":
+                inner = v.variants[0][1][0] if v.variants[0][1] else None
+                on = eng.T.variant_name(inner.ty, inner.variants[0][0]) if isinstance(inner, Enum) and len(inner.variants) == 1 else None
+                if on != "None":
+                    bad.append("an exit that never parsed the slice returns Ok(%s)" % on)
+    for a in seen["dm_args"]:
+        if len(a) >= 3 and "with_storage_header" not in a[2]:
+            bad.append("dlt_message is given %s as storage-header flag instead of the reader's flag" % a[2][:80])
+    if not n or not seen["dm_args"]:
+        R.notes.append("%s: no outcome of %s could be followed (not decided)" % (rule, path))
+        return
+    if bad:
+        for m in sorted(set(bad)):
+            R.violation(rule, "%s|%s" % (path, m[:60]), "%s: %s" % (path, m), function=path, file=fl, line=ln)
+    else:
+        R.obligation(rule, path + "|dispatch", "discharged", "empty slice -> Ok(None); Ok of dlt_message -> Ok(Some(message)); Err of dlt_message -> Err; flag = reader flag")
+        R.instance(rule, "%s: %d exits, dlt_message outcome passed on unchanged" % (path, n))
